@@ -290,8 +290,17 @@ func genRequest(g *vkit.Rand, id, host string, big bool, path string) *Exchange 
 	hasBody := q.Method == "POST" || q.Method == "PUT" || q.Method == "PATCH" || g.Chance(0.08)
 	if hasBody {
 		q.Body = genBody(g, big)
+		if big && g.Chance(0.004) { // above the 2 MiB the generator used to stop at (quantifier audit: "every ... body size")
+			q.Body = g.Bytes(g.PickInt([]int{2<<20 + 1, 5 << 20, 17 << 20}))
+		}
 		if g.Chance(0.35) {
 			q.Chunked = true
+			if g.Chance(0.4) {
+				q.Trailers = []bed.RawHeader{{Name: "X-Req-Trailer", Value: fmt.Sprintf("rt-%d", len(q.Body))}}
+				if g.Bool() {
+					q.Trailers = append(q.Trailers, bed.RawHeader{Name: "X-Req-Sum", Value: "s üñí"})
+				}
+			}
 			q.ChunkSize = g.PickInt([]int{0, 1, 7, 512, 4096, 65536})
 			if len(q.Body) > 20000 && q.ChunkSize > 0 && q.ChunkSize < 512 {
 				q.ChunkSize = 4096
@@ -390,6 +399,9 @@ func genReply(g *vkit.Rand, x *Exchange, big bool) {
 		default:
 			body = g.Bytes(g.Range(90000, 2<<20))
 		}
+	}
+	if big && !noBody && g.Chance(0.003) {
+		body = g.Bytes(g.PickInt([]int{2<<20 + 1, 6 << 20, 19 << 20}))
 	}
 	// hop-negotiated compression: only scripted, and only with a real gzip stream
 	if len(body) > 0 && g.Chance(0.1) {
